@@ -92,3 +92,18 @@ package main
 //@ func printInfo
 //@   trusted
 //@   modifies nothing
+
+// ---- compiled route table (C05, C02) ---------------------------------------------------
+// Every route is registered with the bytecode compiled from that very declaration.
+//@ spec func bcsrc(b []byte) *ast.Route
+//@ func setupRoutes
+//@   requires module != nil
+//@   unknowncalls like dyncall
+//@   dyncall modifies nothing
+//@   callpre glyph.registerCompiledRoute bcsrc(arg2) == arg1
+//@   loop 2 invariant compiledByRoute != nil && forall(r, *ast.Route, has(compiledByRoute, r) ==> bcsrc(compiledByRoute[r]) == r)
+//@   loop 2 invariant 0 <= rangeidx && rangeidx <= len(module.Items) && forall(j, 0, rangeidx, typeis(module.Items[j], *ast.Route) ==> has(compiledByRoute, module.Items[j].(*ast.Route)))
+//@   loop 3 invariant 0 <= rangeidx && compiledByRoute != nil && forall(r, *ast.Route, has(compiledByRoute, r) ==> bcsrc(compiledByRoute[r]) == r) && forall(j, 0, len(module.Items), typeis(module.Items[j], *ast.Route) ==> has(compiledByRoute, module.Items[j].(*ast.Route)))
+//@ func registerCompiledRoute
+//@   trusted
+//@   modifies nothing
